@@ -323,4 +323,6 @@ add("C34", "exact trace of the inverse without the data-space shift", "nifty/re/
 add("C20", "data-space branch sees the unconjugated transpose", "nifty/re/evi.py", "    forward_lin_T = _functional_conj(forward_lin_T)\n\n    if signal_space:\n", "\n    if signal_space:\n        forward_lin_T = _functional_conj(forward_lin_T)\n", "R20.1")
 add("C20", "linearised data without the R(position) term", "nifty/re/evi.py", "        data = data - likelihood.forward(position) + forward_lin(position)", "        data = data - likelihood.forward(position)", "R20.1")
 add("C20", "sampling uses the inversion controller", "nifty/cl/library/wiener_filter_curvature.py", "op = SamplingEnabler(M, Sinv, iteration_controller_sampling, Sinv)", "op = SamplingEnabler(M, Sinv, iteration_controller, Sinv)", "R20.3")
+add("C01", "mul_conj fast path without the shape guard", OPS + "diagonal_operator.py", "        if a.device_id == -1 and a.shape == b.shape:\n            return AnyArray(mul_conj(a.val, b.val))", "        if a.device_id == -1:\n            return AnyArray(mul_conj(a.val, b.val))", "R01.6")
+add("C10", "div_conj fast path without the shape guard", OPS + "diagonal_operator.py", "        if a.device_id == -1 and a.shape == b.shape:\n            return AnyArray(div_conj(a.val, b.val))", "        if a.device_id == -1:\n            return AnyArray(div_conj(a.val, b.val))", "R10.10")
 VARIANTS = V
